@@ -39,6 +39,9 @@ def jobs(tier):
         return [J("T5", n) for n in (7, 8, 9, 10)] + [J("B|ref-raw-adj|3", 8), J("B|ref-raw-adj|3", 9), J("T1", 18, flagsets=(0,))] + \
             [{"name": "B|lookup|0-13-14", "h": "e2e", "params": {"template": "B|lookup|0", "lens": [13, 14], "flagsets": [0, 1]}, "split": 16, "chunk": 30, "max_paths": 300000},
              {"name": "T8-8-8", "h": "e2e", "params": {"template": "T8", "lens": [8, 8], "flagsets": [0]}, "split": 16, "chunk": 30, "max_paths": 300000},
+             # the same framed packet object parsed twice through parse_ccsds_packet: the second parse accounts for its bits from a fresh cursor
+             {"name": "T5-9-direct-twice", "h": "e2e", "params": {"template": "T5", "lens": [9], "flagsets": [1], "via": "direct-twice"}, "split": 16, "chunk": 30, "max_paths": 300000},
+             {"name": "TI-10-direct-twice", "h": "e2e", "params": {"template": "TI", "lens": [10], "flagsets": [1], "via": "direct-twice"}, "split": 4, "chunk": 30, "max_paths": 300000},
              # a long stream: eleven packets one byte too long in a row, one clean, one too long - the n-th is accounted for like the first
              {"name": "TI-many", "h": "e2e", "params": {"template": "TI", "lens": [10] * 11 + [9, 10], "flagsets": [0, 1]}, "split": 4, "chunk": 30, "max_paths": 300000}]
     out = [{"name": "TI-many", "h": "e2e", "params": {"template": "TI", "lens": [10] * 11 + [9, 10] + [8] * 12 + [9], "flagsets": [0, 1]}, "split": 4, "chunk": 30, "max_paths": 300000}]
